@@ -7,7 +7,7 @@
 //! mount); the direct oracles evaluate the property's own clauses on what the real code did.
 //! `conc` ops run 2–4 threads on one real `Registry`; the direct oracle searches for a sequential
 //! order of the SAME implementation that gives the observed outcome (linearizability).
-use repe::{BodyFormat, ErrorCode, Message, QueryFormat, Registry, RegistryError, Router};
+use repe::{ErrorCode, Message, QueryFormat, Registry, RegistryError, Router, WithContext};
 use repe_verif_harness::*;
 use serde_json::{json, Map, Value};
 use std::collections::{BTreeMap, HashSet};
@@ -230,6 +230,41 @@ fn o_at<'a>(v: &'a Value, toks: &[String]) -> Option<&'a Value> {
     Some(cur)
 }
 
+/// What a plain JSON document answers for a read at these tokens: the node, or the class of the first
+/// step that cannot be taken (missing key / not a container: PathNotFound; array: the index must read as a
+/// usize and be in range).
+fn o_resolve<'a>(v: &'a Value, toks: &[String]) -> Result<&'a Value, &'static str> {
+    let mut cur = v;
+    for t in toks {
+        cur = match cur {
+            Value::Object(m) => m.get(t).ok_or("PathNotFound")?,
+            Value::Array(a) => a.get(o_index(t).ok_or("InvalidArrayIndex")?).ok_or("ArrayIndexOutOfBounds")?,
+            _ => return Err("PathNotFound"),
+        };
+    }
+    Ok(cur)
+}
+
+/// Class of the answer to a write at (non-empty) `toks`: the parent must exist; an object takes any key, an
+/// array only an existing slot.
+fn o_write_class(v: &Value, toks: &[String]) -> Result<(), &'static str> {
+    let (last, parent) = toks.split_last().expect("non-root");
+    match o_resolve(v, parent)? {
+        Value::Object(_) => Ok(()),
+        Value::Array(a) => {
+            if o_index(last).ok_or("InvalidArrayIndex")? < a.len() { Ok(()) } else { Err("ArrayIndexOutOfBounds") }
+        }
+        _ => Err("PathNotFound"),
+    }
+}
+
+fn class_of(r: &RRes) -> Result<(), &str> {
+    match r {
+        Ok(_) => Ok(()),
+        Err((v, _)) => Err(v.as_str()),
+    }
+}
+
 fn o_normalize_prefix(p: &str) -> String {
     let mut n = if p.is_empty() || p == "/" {
         String::new()
@@ -391,6 +426,18 @@ impl Sys {
     }
     fn register_fn(reg: &Registry, log: &Log, path: &str, tag: u64, fail: Option<u32>) -> Result<(), RegistryError> {
         let log = Arc::clone(log);
+        if tag % 3 == 2 {
+            // the other two registration forms: a context-taking callable, through `register_function_arc`
+            let f = WithContext(move |_ctx: &repe::CallContext, params: Option<Value>| {
+                let body = params.unwrap_or(Value::Null);
+                log.lock().unwrap().push((tag, body.clone()));
+                match fail {
+                    Some(c) => Err((ErrorCode::try_from(c).unwrap_or(ErrorCode::ApplicationErrorBase), "callable failed".to_string())),
+                    None => Ok(json!({"called": tag, "body": body})),
+                }
+            });
+            return reg.register_function_arc(path, Arc::new(f));
+        }
         reg.register_function(path, move |params: Option<Value>| {
             let body = params.unwrap_or(Value::Null);
             log.lock().unwrap().push((tag, body.clone()));
@@ -509,10 +556,32 @@ fn apply_checked(out: &mut Out, sys: &mut Sys, op: &OpR, trail: &[String], check
             if after_root != before.root || after_log != before.log {
                 fail(out, "registry.read.mutated", format!("a request with an empty body changed the registry: {}", op.words()));
             }
-            if o_parse(p).is_none() {
-                match &r {
+            match o_parse(p) {
+                None => match &r {
                     Err((v, c)) if v == "InvalidPointer" && *c == ErrorCode::MethodNotFound as u32 => out.count("oracle.malformed_rejected"),
                     other => fail(out, "registry.malformed.not_rejected", format!("malformed pointer {} gave {}", pword(p), show_rres(other))),
+                },
+                Some(toks) => {
+                    let key = o_canon(&toks);
+                    if matches!(op, OpR::Disp(..)) && sys.okeys.contains_key(&key) {
+                        // a metadata read of a callable names it by its escape-normalised pointer
+                        out.count("oracle.function_info");
+                        if r.as_ref().ok() != Some(&json!({"type": "function", "path": key})) {
+                            fail(out, "registry.read.function_info", format!("read of callable {} gave {}", pword(p), show_rres(&r)));
+                        }
+                    } else {
+                        // … anything else reads what a plain JSON document holds there
+                        out.count("oracle.read_vs_document");
+                        let want = o_resolve(&before.root, &toks);
+                        let same = match (&want, &r) {
+                            (Ok(w), Ok(g)) => *w == g,
+                            (Err(w), Err((g, c))) => w == g && *c == 6,
+                            _ => false,
+                        };
+                        if !same {
+                            fail(out, "registry.read.differs", format!("{} on {} gave {}, the document answers {:?}", op.words(), render(&before.root), show_rres(&r), want.map(render)));
+                        }
+                    }
                 }
             }
         }
@@ -542,6 +611,9 @@ fn apply_checked(out: &mut Out, sys: &mut Sys, op: &OpR, trail: &[String], check
                     }
                 }
                 (Some(toks), None) => {
+                    if !toks.is_empty() && o_write_class(&before.root, toks) != class_of(&r) {
+                        fail(out, "registry.write.differs", format!("{} on {} gave {}, a plain document answers {:?}", op.words(), render(&before.root), show_rres(&r), o_write_class(&before.root, toks)));
+                    }
                     if after_log != before.log {
                         fail(out, "registry.call.spurious", format!("a write to non-callable {} invoked a callable", pword(p)));
                     }
@@ -607,7 +679,10 @@ fn apply_checked(out: &mut Out, sys: &mut Sys, op: &OpR, trail: &[String], check
                     }
                 }
                 (Ok(_), None) => fail(out, "registry.malformed.not_rejected", format!("{} accepted a malformed path", op.words())),
-                (Err(_), _) => {
+                (Err(_), toks) => {
+                    if toks.is_some() {
+                        fail(out, "registry.register_value.refused", format!("{} with a well-formed path gave {}", op.words(), show_rres(&r)));
+                    }
                     if after_root != before.root {
                         fail(out, "registry.register.failed_mutated", format!("failed {} changed the tree", op.words()));
                     }
@@ -628,6 +703,14 @@ fn apply_checked(out: &mut Out, sys: &mut Sys, op: &OpR, trail: &[String], check
                     if !ok {
                         fail(out, "registry.register_function.parents", format!("{} left {}", op.words(), render(&after_root)));
                     }
+                    let key = o_canon(&toks);
+                    let info = rres(sys.reg.dispatch(&key, None));
+                    if info.as_ref().ok() != Some(&json!({"type": "function", "path": key})) {
+                        fail(out, "registry.read.function_info", format!("after {} a read of {} gave {}", op.words(), pword(&key), show_rres(&info)));
+                    }
+                }
+                (Err(_), Some(toks)) if !toks.is_empty() => {
+                    fail(out, "registry.register_function.refused", format!("{} with a well-formed non-root path gave {}", op.words(), show_rres(&r)));
                 }
                 (Ok(_), _) => fail(out, "registry.malformed.not_rejected", format!("{} accepted a root or malformed path", op.words())),
                 (Err(_), _) => {
@@ -671,7 +754,19 @@ fn apply_checked(out: &mut Out, sys: &mut Sys, op: &OpR, trail: &[String], check
                     }
                 }
                 (Ok(_), None) => fail(out, "registry.malformed.not_rejected", format!("{} accepted a malformed path", op.words())),
-                (Err(_), _) => {
+                (Err((got, _)), toks) => {
+                    let want = match &toks {
+                        Some(t) if t.is_empty() => Ok(()),
+                        Some(t) => match o_resolve(&before.root, t) {
+                            Ok(Value::Object(_)) => Ok(()),
+                            Ok(_) => Err("PathNotFound"),
+                            Err(e) => Err(e),
+                        },
+                        None => Err("InvalidPointer"),
+                    };
+                    if want != Err(got.as_str()) {
+                        fail(out, "registry.merge.differs", format!("{} on {} gave {}, a plain document answers {:?}", op.words(), render(&before.root), show_rres(&r), want));
+                    }
                     if after_root != before.root {
                         fail(out, "registry.merge.failed_mutated", format!("failed {} changed the tree", op.words()));
                     }
@@ -682,46 +777,52 @@ fn apply_checked(out: &mut Out, sys: &mut Sys, op: &OpR, trail: &[String], check
     r
 }
 
-fn mount_request(ctx: &mut Ctx, idx: &str, path: &str, fmt: &str, body: &Option<Value>) -> (Option<Result<Value, u32>>, bool) {
-    let router = ctx.router.as_ref().expect("router configured");
-    let Some(handler) = router.get(path) else { return (None, false) };
-    let id: u64 = idx.parse().unwrap_or(0);
-    let mut b = Message::builder().id(id).query_str(path).query_format(QueryFormat::JsonPointer);
-    let mut used_beve = false;
-    if let Some(v) = body {
-        b = match fmt {
-            "beve" => {
-                let bytes = beve::to_vec(v).ok();
-                let back = bytes.as_ref().and_then(|bs| beve::from_slice::<Value>(bs).ok());
-                if back.as_ref() == Some(v) {
-                    used_beve = true;
-                    b.body_bytes(bytes.unwrap()).body_format(BodyFormat::Beve)
-                } else {
-                    b.body_json(v).unwrap()
-                }
-            }
-            "utf8" => b.body_utf8(v.as_str().expect("utf8 body is a string")),
-            "raw" => b
-                .body_bytes(v.as_array().expect("raw body is an array").iter().map(|x| x.as_u64().unwrap() as u8).collect::<Vec<u8>>())
-                .body_format(BodyFormat::RawBinary),
-            "badjson" => b.body_bytes(b"{\"a\":".to_vec()).body_format(BodyFormat::Json),
-            "badfmt" => b.body_bytes(b"1".to_vec()).body_format_code(999),
-            _ => b.body_json(v).unwrap(),
-        };
+/// What the dependencies' decoders (serde_json, beve, `str::from_utf8`) make of the bytes under this format
+/// code: `Some(value)` or `None` (decoder error).  Formats without an opaque decoder give `None` (not consulted).
+fn dep_decode(fmt: u16, bytes: &[u8]) -> Option<Value> {
+    match fmt {
+        2 => serde_json::from_slice::<Value>(bytes).ok(),
+        1 => beve::from_slice::<Value>(bytes).ok(),
+        3 => std::str::from_utf8(bytes).ok().map(|s| Value::String(s.to_string())),
+        _ => None,
     }
-    let req = b.build();
+}
+
+/// The oracle's own reading of "what value does this request carry": no body when empty; the decoded value;
+/// raw bytes as an array of numbers; `Err(())` = not a valid body (must be answered InvalidBody).
+fn o_body(fmt: u16, bytes: &[u8]) -> Result<Option<Value>, ()> {
+    if bytes.is_empty() {
+        return Ok(None);
+    }
+    match fmt {
+        0 => Ok(Some(Value::Array(bytes.iter().map(|b| json!(*b)).collect()))),
+        1 | 2 | 3 => dep_decode(fmt, bytes).map(Some).ok_or(()),
+        _ => Err(()),
+    }
+}
+
+fn mount_request(ctx: &mut Ctx, idx: &str, path: &str, fmt: u16, bytes: &[u8]) -> Option<Result<Value, u32>> {
+    let router = ctx.router.as_ref().expect("router configured");
+    let handler = router.get(path)?;
+    let id: u64 = idx.parse().unwrap_or(0);
+    let req = Message::builder()
+        .id(id)
+        .query_str(path)
+        .query_format(QueryFormat::JsonPointer)
+        .body_bytes(bytes.to_vec())
+        .body_format_code(fmt)
+        .build();
     let resp = if id % 2 == 0 {
         handler.handle(&req)
     } else {
         handler.handle_with_ctx(&req, &repe::CallContext::detached(path))
     }
     .expect("registry handler returns a message");
-    let r = if resp.header.ec == 0 {
+    Some(if resp.header.ec == 0 {
         Ok(serde_json::from_slice::<Value>(&resp.body).expect("json response body"))
     } else {
         Err(resp.header.ec)
-    };
-    (Some(r), used_beve)
+    })
 }
 
 /// Execute one sequential op line; returns (observation, nontrivial).
@@ -748,22 +849,29 @@ fn exec_seq(out: &mut Out, ctx: &mut Ctx, line: &str) -> Option<(String, bool)> 
         }
         "dump" => Some((format!("{} dump {}", idx, ctx.sys.dump(false)), false)),
         "req" => {
+            // req i <path P> <format code> <body hex|-> <what the dependency decoder gives: J | ! | ->
             ctx.trail.push(line.to_string());
             let path = unpword(w[2]);
-            let fmt = w[3];
-            let body = if w[4] == "-" { None } else { Some(unjword(w[4])) };
+            let fmt: u16 = w[3].parse().expect("format code");
+            let bytes = unhex(w[4]).expect("body hex");
+            let body = o_body(fmt, &bytes);
             let before = ctx.sys.snapshot();
-            let (r, used_beve) = mount_request(ctx, idx, &path, fmt, &body);
-            if used_beve {
-                out.count("req.beve");
-            }
+            let r = mount_request(ctx, idx, &path, fmt, &bytes);
+            out.count(&format!("req.fmt{}.{}", if fmt > 3 { "Unknown".to_string() } else { fmt.to_string() }, match &body { Ok(None) => "empty", Ok(Some(_)) => "value", Err(()) => "invalid" }));
             let trail = ctx.trail.clone();
-            // oracle: mounting only strips the prefix
+            // oracle: mounting only strips the prefix; the request is the direct dispatch of the decoded body
             let want_ptr = o_strip(&ctx.prefixes, &path);
             match (&r, &want_ptr) {
                 (None, None) => out.count("req.unrouted"),
-                (Some(got), Some(ptr)) => {
-                    if body.is_none() {
+                (Some(got), Some(ptr)) => match &body {
+                    Err(()) => {
+                        let after = ctx.sys.snapshot();
+                        if got != &Err(4) || after.root != before.root || after.log != before.log {
+                            out.oracle_fail("registry.mount.decode", &format!("a body that is not valid for format {} was answered {:?} (InvalidBody = 4 expected, nothing changed)", fmt, got), &trail);
+                        }
+                        out.count("oracle.mount_invalid_body");
+                    }
+                    Ok(None) => {
                         let direct = ctx.sys.reg.dispatch(ptr, None).map_err(|e| e.code() as u32);
                         if &direct != got {
                             out.oracle_fail("registry.mount.read_differs", &format!("path {} under prefixes {:?}: mount gave {:?}, direct dispatch({}) gave {:?}", pword(&path), ctx.prefixes, got, pword(ptr), direct), &trail);
@@ -773,17 +881,18 @@ fn exec_seq(out: &mut Out, ctx: &mut Ctx, line: &str) -> Option<(String, bool)> 
                             out.oracle_fail("registry.read.mutated", "a mounted request with an empty body changed the registry", &trail);
                         }
                         out.count("oracle.mount_read");
-                    } else if fmt == "json" || fmt == "beve" {
+                    }
+                    Ok(Some(v)) => {
                         // replay the same body-bearing request directly on an equal registry
                         let mut twin = Sys::from_snapshot(&before);
-                        let direct = twin.apply(&OpR::Disp(ptr.clone(), body.clone())).map_err(|e| e.1);
-                        let same_state = twin.root() == ctx.sys.root() && twin.log_len() == ctx.sys.log_len();
+                        let direct = twin.apply(&OpR::Disp(ptr.clone(), Some(v.clone()))).map_err(|e| e.1);
+                        let same_state = twin.root() == ctx.sys.root() && twin.log.lock().unwrap().clone() == ctx.sys.log.lock().unwrap().clone();
                         if &direct != got || !same_state {
                             out.oracle_fail("registry.mount.write_differs", &format!("path {} under prefixes {:?}: mount gave {:?}, direct dispatch({}) gave {:?}", pword(&path), ctx.prefixes, got, pword(ptr), direct), &trail);
                         }
                         out.count("oracle.mount_write");
                     }
-                }
+                },
                 (Some(Err(6)), None) => out.count("req.not_below_prefix"),
                 (got, want) => out.oracle_fail("registry.mount.routing", &format!("path {} under prefixes {:?}: mount gave {:?}, stripping gives {:?}", pword(&path), ctx.prefixes, got, want), &trail),
             }
@@ -1358,21 +1467,30 @@ fn gen_sequence(r: &mut Rng, k: &mut u64, ops: &mut Vec<String>, max_len: u64) {
                 // through the mount
                 let pre = if prefixes.is_empty() || r.chance(1, 6) { "/zz".to_string() } else { o_normalize_prefix(r.pick(&prefixes)) };
                 let tail = g.pointer(r);
-                let path = match r.below(8) {
+                let path = match r.below(10) {
                     0 => pre.clone(),
                     1 => format!("{pre}x{tail}"),
+                    2 => format!("{pre}{pre}{tail}"), // the prefix text repeated: only the first is the mount
                     _ => format!("{pre}{tail}"),
                 };
-                let (fmt, body) = match r.below(12) {
-                    0..=3 => ("json", None),
-                    4..=6 => ("json", Some(gen_value(r, 2))),
-                    7 => ("beve", Some(gen_value(r, 2))),
-                    8 => ("utf8", Some(Value::String((*r.pick(&["s", "h i", "é"])).to_string()))),
-                    9 => ("raw", Some(json!([r.below(256), r.below(256)]))),
-                    10 => ("badjson", Some(Value::Null)),
-                    _ => ("badfmt", Some(Value::Null)),
+                let v = gen_value(r, 2);
+                let (fmt, bytes): (u16, Vec<u8>) = match r.below(20) {
+                    0..=5 => (2, vec![]),
+                    6 => (*r.pick(&[0u16, 1, 3, 4, 999, 65535]), vec![]), // an empty body is a read whatever the format
+                    7..=11 => (2, serde_json::to_vec(&v).unwrap()),
+                    12 | 13 => (1, beve::to_vec(&v).unwrap_or_default()),
+                    14 => (3, r.pick(&["s", "h i", "é", "{\"a\":1}"]).as_bytes().to_vec()),
+                    15 => (3, vec![0x61, 0xff, 0xfe]), // not UTF-8
+                    16 => (0, vec![r.below(256) as u8, r.below(256) as u8]),
+                    17 => (2, b"{\"a\":".to_vec()), // truncated JSON
+                    18 => (1, serde_json::to_vec(&v).unwrap()), // JSON text sent as BEVE
+                    _ => (*r.pick(&[4u16, 999, 65535]), b"1".to_vec()),
                 };
-                format!("req {} {} {}", pword(&path), fmt, body.as_ref().map(render).unwrap_or("-".into()))
+                let dec = match fmt {
+                    1 | 2 | 3 if !bytes.is_empty() => dep_decode(fmt, &bytes).map(|v| render(&v)).unwrap_or("!".into()),
+                    _ => "-".into(),
+                };
+                format!("req {} {} {} {}", pword(&path), fmt, hex(&bytes), dec)
             }
         };
         next(ops, op);
@@ -1384,7 +1502,7 @@ fn gen_sequence(r: &mut Rng, k: &mut u64, ops: &mut Vec<String>, max_len: u64) {
 }
 
 fn gen_jp(r: &mut Rng, k: &mut u64, ops: &mut Vec<String>, n: usize) {
-    const PIECES: &[&str] = &["a", "b", "~0", "~1", "~", "~2", "~01", "~10", "~~", "0", "1", "01", "+1", "", "é", "/", "//", "x"];
+    const PIECES: &[&str] = &["-", "a", "b", "~0", "~1", "~", "~2", "~01", "~10", "~~", "0", "1", "01", "+1", "", "é", "/", "//", "x"];
     for i in 0..n {
         let d = r.below(5);
         let mut p = String::new();
@@ -1415,7 +1533,7 @@ fn gen_jp(r: &mut Rng, k: &mut u64, ops: &mut Vec<String>, n: usize) {
                     Value::Array(a) if !a.is_empty() && r.chance(4, 5) => {
                         let i = r.below(a.len() as u64 + 1) as usize;
                         q.push('/');
-                        q.push_str(&match r.below(4) { 0 => format!("0{i}"), 1 => format!("+{i}"), _ => i.to_string() });
+                        q.push_str(&match r.below(6) { 0 => format!("0{i}"), 1 => format!("+{i}"), 2 => "-".to_string(), _ => i.to_string() });
                         if i >= a.len() {
                             break;
                         }
@@ -1498,7 +1616,7 @@ fn main() {
         }
         gen_jp(&mut rng, &mut k, &mut ops, if thorough { 40000 } else { 4000 });
         let len = if thorough { 5 } else { 4 };
-        for (d, l) in [("d1", len), ("d2", len - 1), ("d3", len - 1), ("d4", len - 1), ("d5", len - 1)] {
+        for (d, l) in [("d1", len), ("d2", len), ("d3", len - 1), ("d4", len - 1), ("d5", len - 1)] {
             ops.push(format!("enum {} {} {}", k, d, l));
             k += 1;
         }
